@@ -31,6 +31,7 @@ type scenario struct {
 	Phase         string `json:"phase,omitempty"`  // idle | at-backend
 	BackendMs     int    `json:"backend_ms,omitempty"`
 	SignalAfterMs int    `json:"signal_after_ms,omitempty"` // after the request reached the backend (or after start when idle)
+	ListFault     string `json:"list_fault,omitempty"`      // "503": how the list call in flight at the signal ends (default: empty list). A dropped connection is not used: net/http re-sends an idempotent GET on its own, which the fake proxy cannot tell from a new poll
 }
 
 type result struct {
@@ -103,6 +104,9 @@ func runScenario(agentBin string, sc scenario) result {
 	}))
 	defer metadata.Close()
 	listed := false
+	signalled := make(chan struct{})
+	var lastListStart time.Time
+	listInFlight := 0
 	proxy := httptest.NewServer(http.HandlerFunc(func(w http.ResponseWriter, r *http.Request) {
 		id := r.Header.Get("X-Inverting-Proxy-Request-ID")
 		switch {
@@ -111,18 +115,39 @@ func runScenario(agentBin string, sc scenario) result {
 			res.ListStartsMs = append(res.ListStartsMs, ms())
 			give := sc.Phase == "at-backend" && !listed
 			listed = true
+			lastListStart = time.Now()
+			listInFlight++
 			mu.Unlock()
 			if give {
 				w.Write([]byte(`["req-1"]`))
 			} else {
 				// a long poll: hold the call for a while
+				faulted := false
 				select {
 				case <-time.After(400 * time.Millisecond):
 				case <-r.Context().Done():
+				case <-signalled:
+					// the call in flight when the signal arrives
+					time.Sleep(150 * time.Millisecond)
+					switch sc.ListFault {
+					case "503":
+						faulted = true
+						w.WriteHeader(503)
+					case "drop":
+						faulted = true
+						if hj, ok := w.(http.Hijacker); ok {
+							if c, _, err := hj.Hijack(); err == nil {
+								c.Close()
+							}
+						}
+					}
 				}
-				w.Write([]byte("[]"))
+				if !faulted {
+					w.Write([]byte("[]"))
+				}
 			}
 			mu.Lock()
+			listInFlight--
 			res.ListReturnsMs = append(res.ListReturnsMs, ms())
 			mu.Unlock()
 		case strings.HasSuffix(r.URL.Path, "agent/request"):
@@ -184,6 +209,16 @@ func runScenario(agentBin string, sc scenario) result {
 			}
 		}
 		time.Sleep(time.Duration(sc.SignalAfterMs) * time.Millisecond)
+		// send the signal while a pending-list call is in flight (100..250 ms into its 400 ms hold), never at a poll boundary
+		for i := 0; i < 400; i++ {
+			mu.Lock()
+			ok := listInFlight > 0 && time.Since(lastListStart) >= 100*time.Millisecond && time.Since(lastListStart) <= 250*time.Millisecond
+			mu.Unlock()
+			if ok {
+				break
+			}
+			time.Sleep(5 * time.Millisecond)
+		}
 		sig := syscall.SIGINT
 		if sc.Signal == "TERM" {
 			sig = syscall.SIGTERM
@@ -192,6 +227,7 @@ func runScenario(agentBin string, sc scenario) result {
 		res.SignalMs = ms()
 		mu.Unlock()
 		cmd.Process.Signal(sig)
+		close(signalled)
 		limit = time.Duration(sc.GraceMs+3000) * time.Millisecond
 	case "unhealthy", "gate":
 		limit = time.Duration(len(sc.Checks)+3) * time.Second
@@ -242,6 +278,8 @@ func main() {
 			scenario{Name: "graceful-3s-backend-finishes-" + sig, Kind: "graceful", GraceMs: 3000, Signal: sig, Phase: "at-backend", BackendMs: 1200, SignalAfterMs: 200},
 			scenario{Name: "graceful-1s-backend-too-slow-" + sig, Kind: "graceful", GraceMs: 1000, Signal: sig, Phase: "at-backend", BackendMs: 2500, SignalAfterMs: 200},
 			scenario{Name: "graceful-off-at-backend-" + sig, Kind: "graceful", GraceMs: 0, Signal: sig, Phase: "at-backend", BackendMs: 1500, SignalAfterMs: 200},
+			scenario{Name: "graceful-2s-idle-list-503-" + sig, Kind: "graceful", GraceMs: 2000, Signal: sig, Phase: "idle", SignalAfterMs: 700, ListFault: "503"},
+			scenario{Name: "graceful-3s-backend-list-503-" + sig, Kind: "graceful", GraceMs: 3000, Signal: sig, Phase: "at-backend", BackendMs: 1200, SignalAfterMs: 200, ListFault: "503"},
 		)
 	}
 	if *tier == "thorough" {
